@@ -193,6 +193,18 @@ pub fn marker_inputs() -> Vec<Input>
 			}
 		}
 	}
+	// the nesting limit of address markers
+	{
+		let many = format!("{}a", "&".repeat(128));
+		for prefix in ["", "var pre: i32 = 1_000 + 0x_ff; ", "print!(\"\u{e9}\u{20ac}\u{1f600}\"); "]
+		{
+			out.push(Input {
+				class: "marker:too many address markers".to_string(),
+				files: vec![("m.pn".to_string(), format!("fn main()\n{{\n\tvar a: i32 = 1;\n\t{prefix}var x = {many};\n}}\n"))],
+				marker: Some((vec![390], many.clone(), None)),
+			});
+		}
+	}
 	// declaration level
 	let decl_prefixes: [(&str, &str); 4] = [
 		("nothing", ""),
